@@ -55,4 +55,9 @@ class RepresentationBaseType(DashElement):
         await asyncio.gather(*futures)
 
     def children(self) -> list[DashElement]:
-        return self.event_streams
+        rv: list[DashElement] = self.event_streams + self.contentProtection
+        rv += self.segmentList
+        # (a Representation might use the SegmentTemplate of its AdaptationSet)
+        if self.segmentTemplate is not None and self.segmentTemplate.parent is self:
+            rv.append(self.segmentTemplate)
+        return rv
